@@ -1623,6 +1623,17 @@ class VM:
             regex_internal._poll_callback = None
         return regex_internal
 
+    def _compile_string_pattern(self, pattern: JSValue, poll_callback: Any) -> Any:
+        """Compile the string pattern of str.match / str.search."""
+        from .regex import RegExp as InternalRegExp, RegExpError
+        from .errors import JSSyntaxError
+
+        source = to_string(pattern)
+        try:
+            return InternalRegExp(source, "", poll_callback)
+        except RegExpError as e:
+            raise JSSyntaxError(f"Invalid regular expression: /{source}/: {e}")
+
     def _make_regexp_method(self, re: JSRegExp, method: str) -> Any:
         """Create a bound RegExp method."""
         self._regex_internal(re)
@@ -2118,7 +2129,7 @@ class VM:
                     poll_callback = (
                         lambda: time.monotonic() - self.start_time > self.time_limit
                     )
-                regex_internal = InternalRegExp(to_string(pattern), "", poll_callback)
+                regex_internal = self._compile_string_pattern(pattern, poll_callback)
                 is_global = False
 
             try:
@@ -2184,7 +2195,7 @@ class VM:
                     poll_callback = (
                         lambda: time.monotonic() - self.start_time > self.time_limit
                     )
-                regex_internal = InternalRegExp(to_string(pattern), "", poll_callback)
+                regex_internal = self._compile_string_pattern(pattern, poll_callback)
 
             try:
                 vm_regex = regex_internal._create_vm()
